@@ -8,7 +8,7 @@ HARNESS_OP = "C17"
 FRESH_PROCESS = False
 CASE_TIMEOUT = "10s"
 RULE = ("source trees of 1-5 paths (nested directories, 9 selected and 6 other extensions, extension lists "
-        "from empty to coca's default, extensions of several parts such as .d.ts / .gradle.kts) whose files are sequences of 0-60 abstract items: code tokens (incl. the "
+        "from empty to coca's default, extensions of several parts such as .d.ts / .gradle.kts, lists with an empty element) whose files are sequences of 0-60 abstract items: code tokens (incl. the "
         "words TODO/FIXME, division, backslash), double-quoted / back-quoted / character literals containing "
         "//, /*, */, # and TODO with every escape of the grammar, and line, block and hash comments with any "
         "text (empty, one character, marker only, TODO / todo: / FIXME(al): / TODO (a.b+c@d) x, keyword glued "
@@ -208,6 +208,10 @@ def gen_exts(rng):
     if r < 0.6:
         # extensions of more than one part (TypeScript declaration files, Kotlin build scripts, minified bundles)
         return rng.sample([".d.ts", ".spec.ts", ".gradle.kts", ".min.js"], rng.randint(1, 3)) + rng.sample(DEFAULT_EXTS, rng.randint(0, 2))
+    if r < 0.66:
+        # a list with an empty element, `-e ".go,,.java"`: the empty suffix selects every file, the elements after it still count
+        es = rng.sample(DEFAULT_EXTS, 2)
+        return [es[0], "", es[1]] if rng.random() < 0.7 else ["", es[0]]
     k = rng.randint(1, 4)
     return rng.sample(DEFAULT_EXTS, k)
 
